@@ -487,9 +487,9 @@ impl<const N: usize> Ex<N> {
         let mut out = OpOut::new(cls::RET);
         let len = self.models[x].len();
         let k = st.vals.len();
-        out.argclass = lenclass(k, N - len, N) * 4 + (st.b as u64 % 4);
+        out.argclass = lenclass(k, N - len, N) * 5 + (st.b as u64 % 5);
         out.nontrivial = k > 0;
-        let mode = st.b % 4;
+        let mode = st.b % 5;
         if mode == 3 {
             // extend(slice.iter().cloned())
             let src: Vec<Tracked> = st.vals.iter().map(|v| Tracked::new(*v % 3, Origin::Harness)).collect();
@@ -513,7 +513,7 @@ impl<const N: usize> Ex<N> {
             self.adopt_tail(x, keep_old, N.min(total), out.own, "extend(cloned)", &mut acc);
             return out;
         }
-        let it = SrcIter::new(&st.vals, mode);
+        let it = SrcIter::new(&st.vals, if mode == 4 { 3 } else { mode });
         let made = it.made.clone();
         let b = self.bufs[x].as_mut().unwrap();
         let r = crate::elem::window(|| b.extend(it));
@@ -571,11 +571,14 @@ pub struct SrcIter {
     pos: usize,
     mode: usize,
     pub made: std::rc::Rc<std::cell::RefCell<Vec<(u32, u32)>>>,
+    /// mode 3 (not fused): after its first `None` the iterator yields two more items. Consumers
+    /// must stop at the first `None`; `made` only records what was yielded before it.
+    after_none: usize,
 }
 
 impl SrcIter {
     pub fn new(vals: &[u32], mode: usize) -> SrcIter {
-        SrcIter { vals: vals.to_vec(), pos: 0, mode, made: Default::default() }
+        SrcIter { vals: vals.to_vec(), pos: 0, mode, made: Default::default(), after_none: 0 }
     }
 }
 
@@ -585,6 +588,13 @@ impl Iterator for SrcIter {
         let _s = HookScope::enter();
         user_code_tick(FaultKind::Iter);
         if self.pos >= self.vals.len() {
+            if self.mode == 3 {
+                self.after_none += 1;
+                if self.after_none == 2 || self.after_none == 3 {
+                    // not fused: an item after the end (never part of the sequence)
+                    return Some(Tracked::new(2, Origin::IterSrc));
+                }
+            }
             return None;
         }
         let t = Tracked::new(self.vals[self.pos] % 3, Origin::IterSrc);
@@ -595,7 +605,7 @@ impl Iterator for SrcIter {
     fn size_hint(&self) -> (usize, Option<usize>) {
         let rem = self.vals.len() - self.pos;
         match self.mode {
-            1 => (0, None),
+            1 | 3 => (0, None),
             2 => (rem + 5, Some(rem + 5)),
             _ => (rem, Some(rem)),
         }
